@@ -57,8 +57,8 @@ def threshold_rule(v, what, call, ref, sc, unclipped):
     ref/sc: oracle value and rounding scale; unclipped: the library's own unclipped numbers."""
     m = float(np.min(ref))
     i = int(np.argmin(ref))
-    if not m < -100 * TOL * sc[i]:
-        return False  # no clearly negative value
+    if not m < -100 * TOL * sc[i] or abs(m) < 1e-290:
+        return False  # no clearly negative value (or a denormal one: 0.9|m| and 1.1|m| are then not distinct from |m|)
     for thr, expect in ((0.9 * abs(m), "raise"), (1.1 * abs(m), "clip")):
         try:
             out = call(thr)
